@@ -83,25 +83,25 @@ def generate():
             if isinstance(s, ast.With):
                 if len(s.items) != 1 or ast.unparse(s.items[0].context_expr) != f'{clsarg}._lock' or not lock_ok:
                     raise Unsupported('with-statement on something other than the class lock: ' + u[:80], span(s))
-                prog.append(['IAcquire', 'with %s._lock:' % clsarg])
+                prog.append(['IAcquire', 'with %s._lock:' % clsarg, ('get_default_instance', s.lineno, 'enter')])
                 tr_block(s.body)
-                prog.append(['IRelease', 'end of with-block'])
+                prog.append(['IRelease', 'end of with-block', ('get_default_instance', s.lineno, 'exit')])
             elif isinstance(s, ast.If):
                 if ast.unparse(s.test) != f'{inst_expr} is None' or s.orelse:
                     raise Unsupported('if-statement: ' + ast.unparse(s.test), span(s))
                 slot = len(prog)
-                prog.append([None, 'if %s is None:' % inst_expr])
+                prog.append([None, 'if %s is None:' % inst_expr, ('get_default_instance', s.lineno, '')])
                 tr_block(s.body)
                 prog[slot][0] = f'IJumpIfInst {len(prog)}'
             elif isinstance(s, ast.Assign) and len(s.targets) == 1 and ast.unparse(s.targets[0]) == inst_expr \
                     and ast.unparse(s.value) == f'{clsarg}()':
-                prog.append(['INewAssign', u])
+                prog.append(['INewAssign', u, ('get_default_instance', s.lineno, '')])
             elif u == f'{inst_expr}.default_initialization()':
-                prog.append(['ILoadSelf', u + '   (receiver evaluated)'])
+                prog.append(['ILoadSelf', u + '   (receiver evaluated)', ('get_default_instance', s.lineno, '')])
                 for ins, st in zip(init_instrs, side['default_initialization']):
-                    prog.append([ins, '  ' + st['stmt']])
+                    prog.append([ins, '  ' + st['stmt'], ('default_initialization', st['line'], '')])
             elif isinstance(s, ast.Return) and s.value is not None and ast.unparse(s.value) == inst_expr:
-                prog.append(['IReturn', u])
+                prog.append(['IReturn', u, ('get_default_instance', s.lineno, '')])
             else:
                 raise Unsupported('get_default_instance: ' + u[:120], span(s))
 
@@ -113,7 +113,7 @@ def generate():
              '(* sqlparse/lexer.py: Lexer.get_default_instance with Lexer.default_initialization inlined. *)\n',
              'From SqlModel Require Import Base.', 'From SqlModel.Sys Require Import Singleton.', '',
              'Definition get_default_instance_prog : list instr :=', '  [']
-    for i, (ins, cm) in enumerate(prog):
+    for i, (ins, cm, _site) in enumerate(prog):
         sep = ';' if i + 1 < len(prog) else ''
         lines.append(f'    {ins}{sep}   (* {i}: {coq_comment(cm)} *)')
     lines.append('  ].')
@@ -123,4 +123,7 @@ def generate():
     lines.append('Definition expected_kws : list nat := [' + '; '.join(str(i) for i in range(len(kwnames))) + '].')
     side['prog'] = [p[0] for p in prog]
     side['kwnames'] = kwnames
+    # source site of every instruction: function, line, and 'enter'/'exit' for the two events of the with-line
+    side['sites'] = [{'fn': p[2][0], 'line': p[2][1], 'phase': p[2][2]} for p in prog]
+    side['shared'] = shared
     return {'SingletonProg.v': '\n'.join(lines) + '\n'}, side
